@@ -213,6 +213,14 @@ structure Facts06 where
   /-- when both the exclusive and the inclusive form of a bound are declared (`gt` and `ge`, or `lt`
       and `le`) only the tighter one is written (XSD forbids both in one restriction) -/
   mergeBounds : Bool
+  /-- members with an `xml_choice_group` get their `<xs:choice>` where they are declared — one per
+      run of consecutive members of the same group — (otherwise: one `<xs:choice>` per group after
+      all other members of the `<xs:sequence>`, although the protocols write members in declaration
+      order) -/
+  choiceInPlace : Bool
+  /-- the simple type of a customised `XmlData` member is defined in the published documents
+      (otherwise the simpleContent extension names a type no document defines) -/
+  dataTypeDefined : Bool
 
 /-! ## Generation -/
 
@@ -590,13 +598,84 @@ def complexDefOk (S : Schema) (e : Key × ComplexDef) : Bool :=
   -- Unique Particle Attribution ("content model is not determinist"): sufficient condition
   namesDistinct (effParticles S.complex S.chainBound e.1)
 
+/-! ### the set of documents: one `<xs:schema>` per namespace -/
+
+/-- code-point order of Python's `sorted` on `str` -/
+def textLe : Text → Text → Bool
+  | [], _ => true
+  | _ :: _, [] => false
+  | a :: r, b :: s => decide (a.toNat < b.toNat) || (a.toNat == b.toNat && textLe r s)
+
+def insertText (a : Text) : List Text → List Text
+  | [] => [a]
+  | b :: r => if textLe a b then a :: b :: r else b :: insertText a r
+
+/-- `sorted(...)` -/
+def sortTexts : List Text → List Text
+  | [] => []
+  | a :: r => insertText a (sortTexts r)
+
+/-- the namespaces that get a document: the application's, and every namespace some component lives in
+    (`get_schema_info` creates the `SchemaInfo` when the first component is filed) -/
+def Schema.docNs (S : Schema) : List Text :=
+  dedupL (S.tns :: (S.simple.map (·.1.1) ++ S.complex.map (·.1.1) ++ S.elements.map (·.1.1)))
+
+/-- one `<xs:schema targetNamespace=…>` -/
+structure NsDoc where
+  tns : Text
+  /-- `<xs:import namespace=…>` in document order: `sorted(interface.imports[ns])` -/
+  imports : List Text
+  simple : List (Key × SimpleDef)
+  complex : List (Key × ComplexDef)
+  elements : List (Key × Key)
+  deriving Repr
+
+def Schema.doc (S : Schema) (ns : Text) : NsDoc :=
+  { tns := ns,
+    imports := sortTexts ((S.imports.filter (fun i => i.1 == ns)).map (·.2)),
+    simple := S.simple.filter (fun e => e.1.1 == ns),
+    complex := S.complex.filter (fun e => e.1.1 == ns),
+    elements := S.elements.filter (fun e => e.1.1 == ns) }
+
+def Schema.docs (S : Schema) : List NsDoc := S.docNs.map S.doc
+
+/-- every `<xs:import>` names a namespace that has a document of the set (libxml2 resolves an import
+    through its `schemaLocation`, which `build_validation_schema` writes only for such namespaces;
+    a reference into a namespace without a document is a compile error) -/
+def Schema.importsHaveDocs (S : Schema) : Bool := S.imports.all (fun i => S.docNs.contains i.2)
+
+/-! ### QNames: `type=` / `base=` are written with the interface's prefixes -/
+
+/-- `prefmap`: namespace ↦ prefix -/
+abbrev PrefMap := List (Text × Text)
+
+def qnameOf (pm : PrefMap) (k : Key) : Option (Text × Text) := (pm.lookup k.1).map (fun p => (p, k.2))
+
+/-- what an XSD processor does with a QName: the in-scope declaration `xmlns:p` decides (every
+    document carries the interface's whole `nsmap`) -/
+def resolveQ (pm : PrefMap) (q : Text × Text) : Option Key :=
+  ((pm.map (fun e => (e.2, e.1))).lookup q.1).map (fun ns => (ns, q.2))
+
+/-- the named references of a schema with the namespace of the document they are written in -/
+def Schema.namedRefs (S : Schema) : List (Text × Key) :=
+  S.complex.flatMap (fun e =>
+    (match e.2.base with | some b => [(e.1.1, b)] | none => []) ++
+    e.2.particles.filterMap (fun p => match p.type with | .named k => some (e.1.1, k) | .builtin _ => none)) ++
+  S.elements.map (fun e => (e.1.1, e.2))
+
+/-- every namespace in use has exactly one prefix and no two namespaces share one -/
+def prefixesOk (pm : PrefMap) (S : Schema) : Bool :=
+  S.docNs.all (fun n => (pm.lookup n).isSome) &&
+  pm.all (fun e => (pm.map (fun e => (e.2, e.1))).lookup e.2 == some e.1)
+
 /-- `etree.XMLSchema(...)` accepts the documents -/
 def Schema.compiles (S : Schema) : Bool :=
   nodupKeys S.simple && nodupKeys S.complex && nodupKeys S.elements &&
   S.simple.all (fun e => !S.hasComplex e.1) &&
   S.simple.all (fun e => simpleDefOk e.2) &&
   S.complex.all (complexDefOk S) &&
-  S.elements.all (fun e => S.hasComplex e.2 || S.hasSimple e.2)
+  S.elements.all (fun e => S.visible e.1.1 e.2 && (S.hasComplex e.2 || S.hasSimple e.2)) &&
+  S.importsHaveDocs
 
 /-! ## Reference validator -/
 
